@@ -96,6 +96,11 @@ func (a *arrayObject) _setLengthInt(l uint32, throw bool) bool {
 		}
 	}
 	if l <= uint32(len(a.values)) {
+		for _, v := range a.values[l:] {
+			if v != nil {
+				a.objCount--
+			}
+		}
 		if l >= 16 && l < uint32(cap(a.values))>>2 {
 			ar := make([]Value, l)
 			copy(ar, a.values)
